@@ -1,6 +1,8 @@
 //! C11: views (UnionGraph, PartialUnionGraph, DatasetGraph, GraphAsDataset) vs the Coq model
 //! and vs a naive set oracle, over mixed histories, for every set-like store type; generalized datasets (graph names of every
-//! kind of term); error paths of bulk mutations through views (failing sources, stores failing at the k-th call; ModelErr.v).
+//! kind of term); error paths of bulk mutations through views (failing sources, stores failing at the k-th call; ModelErr.v);
+//! read errors in the MIDDLE of the store's enumerations (Err items followed by further Ok items), relayed one for one by every
+//! view and every enumeration / pattern method (Op::SetErrs, Op::Seq; ModelSeq.v).
 use sophia_api::dataset::adapter::GraphAsDataset;
 use sophia_api::dataset::adapter::GraphAsDatasetMutationError;
 use sophia_api::graph::adapter::{DatasetGraph, PartialUnionGraph, UnionGraph};
@@ -62,7 +64,21 @@ enum Op {
     /// only on the flaky stores: Some((k, sticky)) = the (k+1)-th elementary insert / remove call that reaches the STORE from
     /// now on fails with MyErr(9) (once; if sticky, every call from then on, until the next SetBudget); None = disarm
     SetBudget(Option<(usize, bool)>),
+    // ---------- read errors in the MIDDLE of an enumeration ----------
+    /// only on the flaky stores: from now on every enumeration of the STORE yields, besides its statements, the error items of
+    /// this plan: (p, code) = Err(MyErr(code)) just before the statement of rank p (at the very end when there are fewer
+    /// statements), several errors at the same place in the order of the plan; the empty plan switches that off.
+    /// The statements that FOLLOW an error item belong to the store as much as the ones before it
+    SetErrs(Plan),
+    /// the observation `GObs` / `DObs` inside, by the same routes, but keeping EVERY item of the iterator in order, errors
+    /// included (nothing stops at the first error): a view must relay the store's own sequence of Ok / Err items one for
+    /// one, restricted to its graphs and to the pattern
+    Seq(Box<Op>),
 }
+/// see Op::SetErrs
+type Plan = Vec<(usize, u64)>;
+/// an item of a fallible enumeration: a statement / term, or the code of the error
+type It<X> = Result<X, u64>;
 #[derive(Clone, Debug)]
 enum Hop { Union, PUnion(GD), Graph(Option<Tid>) }
 #[derive(Clone, Debug)]
@@ -74,7 +90,14 @@ enum Out { Flag(bool), Triples(Vec<T3>), Quads(Vec<Q4>), Count(u64), Terms(Vec<T
            /// a bulk mutation reported the error of its source (MyErr(5)) / the error of the store's insert or remove (MyErr(9))
            SrcErr, SinkErr,
            /// the answer of a mutation, and the whole content of the STORE (read directly, not through a view) right after it
-           After(Box<Out>, Vec<Q4>) }
+           After(Box<Out>, Vec<Q4>),
+           /// the complete sequence of items of an enumeration of triples / quads (Op::Seq)
+           SeqT(Vec<It<T3>>), SeqQ(Vec<It<Q4>>),
+           /// the complete sequence of an enumeration of TERMS, canonical form: the set of the terms yielded (duplicates and the
+           /// place of a term are not part of the contract) and the codes of the errors in the order they came
+           SeqTerms(Vec<Tid>, Vec<u64>),
+           /// the answer of an Op::Seq, and the STORE's own enumeration (quads() / triples() called on the store itself) at that time
+           Seq(Box<Out>, Vec<It<Q4>>) }
 
 #[derive(Clone, Debug)]
 enum GOp { Insert(Q4), Remove(Q4), Contains(Q4), Query(MD, MD, MD, GD), All, DirectInsert(T3), DirectRemove(T3),
@@ -393,13 +416,117 @@ macro_rules! qt_of { ($c:expr, $v:expr, $dr:expr) => {{
         }
     }
 }}; }
+// ---------- the same observations keeping EVERY item, errors included (Op::Seq) ----------
+thread_local! {
+    /// is the observation being run an Op::Seq (the complete sequence of items is the answer)?
+    static SEQ: std::cell::Cell<bool> = std::cell::Cell::new(false);
+}
+fn seq_mode() -> bool { SEQ.with(|s| s.get()) }
+/// the code of an injected error, whatever wraps it
+fn code<E: std::fmt::Debug>(e: &E) -> u64 { format!("{e:?}").chars().filter(|ch| ch.is_ascii_digit()).collect::<String>().parse().unwrap_or(u64::MAX) }
+fn it1<X, E: std::fmt::Debug, Y>(i: Result<X, E>, f: impl Fn(&X) -> Y) -> It<Y> { match i { Ok(x) => Ok(f(&x)), Err(e) => Err(code(&e)) } }
+fn its<X, E: std::fmt::Debug, Y>(items: Vec<Result<X, E>>, f: impl Fn(&X) -> Y) -> Vec<It<Y>> { items.into_iter().map(|i| it1(i, &f)).collect() }
+fn seq_terms(v: Vec<It<Tid>>) -> Out { Out::SeqTerms(set_of(v.iter().filter_map(|i| i.as_ref().ok().cloned()).collect()), v.iter().filter_map(|i| i.as_ref().err().cloned()).collect()) }
+fn seq_graph<G: Graph>(c: &Ctx, g: &G, o: &GObs, dr: u8, r: &mut Rng) -> Out {
+    let mut bad: Vec<String> = vec![];
+    macro_rules! tri { ($what:expr, $mk:expr) => {{
+        let v: Vec<It<T3>> = its(drain($mk, dr, &mut bad), |t| ids3(c, t));
+        let k = r.below(v.len() + 2);
+        let count = $mk.count();
+        let nth = $mk.nth(k).map(|t| it1(t, |t| ids3(c, t)));
+        let last = $mk.last().map(|t| it1(t, |t| ids3(c, t)));
+        cross($what, &v, count, k, nth, last, &mut bad);
+        Out::SeqT(v)
+    }}; }
+    macro_rules! terms { ($what:expr, $mk:expr) => {{
+        let soft = matches!($what, "blank_nodes" | "iris" | "literals" | "variables" | "graph_names");
+        let mut hints: Vec<String> = vec![];
+        let drained = drain($mk, dr, &mut hints);
+        if soft { soft_hint(c, $what, &hints) } else { bad.extend(hints) }
+        let v: Vec<It<Tid>> = its(drained, |t| c.id(t.borrow_term()));
+        let k = r.below(v.len() + 2);
+        let count = $mk.count();
+        let nth = $mk.nth(k).map(|t| it1(t, |t| c.id(t.borrow_term())));
+        let last = $mk.last().map(|t| it1(t, |t| c.id(t.borrow_term())));
+        cross($what, &v, count, k, nth, last, &mut bad);
+        seq_terms(v)
+    }}; }
+    let out = match o {
+        GObs::Matching(s, p, ob) => {
+            let (ms, mp, mo) = (tm(c, s, r), tm(c, p, r), tm(c, ob, r));
+            tri!("triples_matching", g.triples_matching(ms.matcher_ref(), mp.matcher_ref(), mo.matcher_ref()))
+        }
+        GObs::All => tri!("triples", g.triples()),
+        GObs::Contains(t) => match g.contains(c.term(t[0], r), c.term(t[1], r), c.term(t[2], r)) { Ok(b) => Out::Flag(b), Err(e) => Out::Err(format!("{e:?}")) },
+        GObs::Terms(0) => terms!("subjects", g.subjects()),
+        GObs::Terms(1) => terms!("predicates", g.predicates()),
+        GObs::Terms(_) => terms!("objects", g.objects()),
+        GObs::Atoms(0) => terms!("blank_nodes", g.blank_nodes()),
+        GObs::Atoms(1) => terms!("iris", g.iris()),
+        GObs::Atoms(2) => terms!("literals", g.literals()),
+        GObs::Atoms(_) => terms!("variables", g.variables()),
+    };
+    if bad.is_empty() { out } else { Out::Err(bad.join("; ")) }
+}
+fn seq_dataset<D: Dataset>(c: &Ctx, d: &D, o: &DObs, dr: u8, r: &mut Rng) -> Out {
+    let mut bad: Vec<String> = vec![];
+    macro_rules! qua { ($what:expr, $mk:expr) => {{
+        let v: Vec<It<Q4>> = its(drain($mk, dr, &mut bad), |q| ids4(c, q));
+        let k = r.below(v.len() + 2);
+        let count = $mk.count();
+        let nth = $mk.nth(k).map(|q| it1(q, |q| ids4(c, q)));
+        let last = $mk.last().map(|q| it1(q, |q| ids4(c, q)));
+        cross($what, &v, count, k, nth, last, &mut bad);
+        Out::SeqQ(v)
+    }}; }
+    macro_rules! terms { ($what:expr, $mk:expr) => {{
+        let soft = matches!($what, "blank_nodes" | "iris" | "literals" | "variables" | "graph_names");
+        let mut hints: Vec<String> = vec![];
+        let drained = drain($mk, dr, &mut hints);
+        if soft { soft_hint(c, $what, &hints) } else { bad.extend(hints) }
+        let v: Vec<It<Tid>> = its(drained, |t| c.id(t.borrow_term()));
+        let k = r.below(v.len() + 2);
+        let count = $mk.count();
+        let nth = $mk.nth(k).map(|t| it1(t, |t| c.id(t.borrow_term())));
+        let last = $mk.last().map(|t| it1(t, |t| c.id(t.borrow_term())));
+        cross($what, &v, count, k, nth, last, &mut bad);
+        seq_terms(v)
+    }}; }
+    let out = match o {
+        DObs::Matching(s, p, ob, gn) => {
+            let (ms, mp, mo, mg) = (tm(c, s, r), tm(c, p, r), tm(c, ob, r), gm(c, gn, r));
+            qua!("quads_matching", d.quads_matching(ms.matcher_ref(), mp.matcher_ref(), mo.matcher_ref(), mg.matcher_ref()))
+        }
+        DObs::All => qua!("quads", d.quads()),
+        DObs::Contains((t, gn)) => match d.contains(c.term(t[0], r), c.term(t[1], r), c.term(t[2], r), gn.map(|x| c.term(x, r))) { Ok(b) => Out::Flag(b), Err(e) => Out::Err(format!("{e:?}")) },
+        DObs::Terms(0) => terms!("subjects", d.subjects()),
+        DObs::Terms(1) => terms!("predicates", d.predicates()),
+        DObs::Terms(2) => terms!("objects", d.objects()),
+        DObs::Terms(_) => terms!("graph_names", d.graph_names()),
+        DObs::Atoms(0) => terms!("blank_nodes", d.blank_nodes()),
+        DObs::Atoms(1) => terms!("iris", d.iris()),
+        DObs::Atoms(2) => terms!("literals", d.literals()),
+        DObs::Atoms(_) => terms!("variables", d.variables()),
+    };
+    if bad.is_empty() { out } else { Out::Err(bad.join("; ")) }
+}
+macro_rules! qt_seq { ($c:expr, $v:expr, $dr:expr) => {{
+    let mut hints: Vec<String> = vec![];
+    let drained = drain($v.quoted_triples(), $dr, &mut hints);
+    soft_hint($c, "quoted_triples", &hints);
+    let v: Vec<It<Tid>> = its(drained, |t| $c.id(t.borrow_term()));
+    let n = $v.quoted_triples().count();
+    if n != v.len() { Out::Err(format!("quoted_triples: count() = {n} but {} items were yielded", v.len())) } else { seq_terms(v) }
+}}; }
 macro_rules! gobs { ($c:expr, $r:expr, $v:expr, $obs:expr, $dr:expr) => {{
     let vref = &$v;
-    match $obs { GObs::Atoms(3) => qt_of!($c, vref, $dr), o => obs_graph($c, vref, o, $dr, $r) }
+    if seq_mode() { match $obs { GObs::Atoms(3) => qt_seq!($c, vref, $dr), o => seq_graph($c, vref, o, $dr, $r) } }
+    else { match $obs { GObs::Atoms(3) => qt_of!($c, vref, $dr), o => obs_graph($c, vref, o, $dr, $r) } }
 }}; }
 macro_rules! dobs { ($c:expr, $r:expr, $v:expr, $obs:expr, $dr:expr) => {{
     let vref = &$v;
-    match $obs { DObs::Atoms(3) => qt_of!($c, vref, $dr), o => obs_dataset($c, vref, o, $dr, $r) }
+    if seq_mode() { match $obs { DObs::Atoms(3) => qt_seq!($c, vref, $dr), o => seq_dataset($c, vref, o, $dr, $r) } }
+    else { match $obs { DObs::Atoms(3) => qt_of!($c, vref, $dr), o => obs_dataset($c, vref, o, $dr, $r) } }
 }}; }
 /// one step from a dataset-valued expression (a reference) to a graph-valued view, by the Dataset methods
 macro_rules! with_hop { ($ds:expr, $hop:expr, $c:expr, $r:expr, $v:ident => $body:expr) => {
@@ -481,7 +608,21 @@ fn cnt<E: std::fmt::Debug>(x: Result<usize, E>) -> Out { match x { Ok(n) => Out:
 /// a dataset store whose enumerations can fail: a view must pass the error on (and a bulk mutation through a view must
 /// give up before changing anything); everything except quads / insert / remove is the trait's provided code
 #[derive(Default)]
-struct Flaky { inner: BTreeSet<Spog<ST>>, fail: bool, /** see Op::SetBudget */ budget: Option<(usize, bool)> }
+struct Flaky { inner: BTreeSet<Spog<ST>>, fail: bool, /** see Op::SetBudget */ budget: Option<(usize, bool)>, /** see Op::SetErrs */ errs: Plan }
+/// the items of `it` as Ok items, with the error items of the plan in between (see Op::SetErrs)
+struct Inter<'p, I: Iterator> { it: std::iter::Peekable<I>, plan: &'p [(usize, u64)], pos: usize, /** errors already yielded at this place */ k: usize }
+fn inter<I: Iterator>(it: I, plan: &[(usize, u64)]) -> Inter<'_, I> { Inter { it: it.peekable(), plan, pos: 0, k: 0 } }
+impl<'p, I: Iterator> Iterator for Inter<'p, I> {
+    type Item = Result<I::Item, MyErr>;
+    fn next(&mut self) -> Option<Self::Item> {
+        let at_end = self.it.peek().is_none();
+        let mut seen = 0;
+        for (p, code) in self.plan {
+            if *p == self.pos || (at_end && *p > self.pos) { if seen == self.k { self.k += 1; return Some(Err(MyErr(*code))) } seen += 1 }
+        }
+        match self.it.next() { Some(x) => { self.pos += 1; self.k = 0; Some(Ok(x)) } None => None }
+    }
+}
 /// one elementary mutation call reaching a flaky store: does it fail?
 fn tick(b: &mut Option<(usize, bool)>) -> Result<(), MyErr> {
     match *b { None => Ok(()), Some((0, sticky)) => { if !sticky { *b = None } Err(MyErr(9)) } Some((k, sticky)) => { *b = Some((k - 1, sticky)); Ok(()) } }
@@ -491,7 +632,7 @@ impl Dataset for Flaky {
     type Error = MyErr;
     fn quads(&self) -> impl Iterator<Item = Result<Self::Quad<'_>, MyErr>> + '_ {
         let head: Option<Result<Self::Quad<'_>, MyErr>> = if self.fail { Some(Err(MyErr(7))) } else { None };
-        head.into_iter().chain(self.inner.iter().map(|q| Ok(q.spog())))
+        head.into_iter().chain(inter(self.inner.iter().map(|q| q.spog()), &self.errs))
     }
 }
 impl sophia_api::dataset::SetDataset for Flaky {}
@@ -502,13 +643,13 @@ impl MutableDataset for Flaky {
 }
 /// the same for a graph store
 #[derive(Default)]
-struct FlakyG { inner: BTreeSet<[ST; 3]>, fail: bool, budget: Option<(usize, bool)> }
+struct FlakyG { inner: BTreeSet<[ST; 3]>, fail: bool, budget: Option<(usize, bool)>, errs: Plan }
 impl Graph for FlakyG {
     type Triple<'x> = [&'x ST; 3];
     type Error = MyErr;
     fn triples(&self) -> impl Iterator<Item = Result<Self::Triple<'_>, MyErr>> + '_ {
         let head: Option<Result<Self::Triple<'_>, MyErr>> = if self.fail { Some(Err(MyErr(7))) } else { None };
-        head.into_iter().chain(self.inner.iter().map(|t| Ok(t.spo())))
+        head.into_iter().chain(inter(self.inner.iter().map(|t| t.spo()), &self.errs))
     }
 }
 impl sophia_api::graph::SetGraph for FlakyG {}
@@ -521,19 +662,23 @@ impl OnlyDef for MyErr { fn only_default(&self) -> bool { false } }
 trait MaybeFlaky {
     fn set_fail(&mut self, _b: bool) { unreachable!("SetFail is generated for the flaky stores only") }
     fn set_budget(&mut self, _b: Option<(usize, bool)>) { unreachable!("SetBudget is generated for the flaky stores only") }
+    fn set_errs(&mut self, _p: Plan) { unreachable!("SetErrs is generated for the flaky stores only") }
     /// is a failure of the store's insert / remove pending?
     fn armed(&self) -> bool { false }
     /// switch every injected failure off (to read the content of the store) / back on
-    fn pause(&mut self) -> (bool, Option<(usize, bool)>) { (false, None) }
-    fn resume(&mut self, _saved: (bool, Option<(usize, bool)>)) {}
+    fn pause(&mut self) -> Saved { (false, None, vec![]) }
+    fn resume(&mut self, _saved: Saved) {}
 }
+type Saved = (bool, Option<(usize, bool)>, Plan);
 impl MaybeFlaky for Flaky {
     fn set_fail(&mut self, b: bool) { self.fail = b } fn set_budget(&mut self, b: Option<(usize, bool)>) { self.budget = b } fn armed(&self) -> bool { self.budget.is_some() }
-    fn pause(&mut self) -> (bool, Option<(usize, bool)>) { let x = (self.fail, self.budget); self.fail = false; self.budget = None; x } fn resume(&mut self, x: (bool, Option<(usize, bool)>)) { self.fail = x.0; self.budget = x.1 }
+    fn set_errs(&mut self, p: Plan) { self.errs = p }
+    fn pause(&mut self) -> Saved { let x = (self.fail, self.budget, std::mem::take(&mut self.errs)); self.fail = false; self.budget = None; x } fn resume(&mut self, x: Saved) { self.fail = x.0; self.budget = x.1; self.errs = x.2 }
 }
 impl MaybeFlaky for FlakyG {
     fn set_fail(&mut self, b: bool) { self.fail = b } fn set_budget(&mut self, b: Option<(usize, bool)>) { self.budget = b } fn armed(&self) -> bool { self.budget.is_some() }
-    fn pause(&mut self) -> (bool, Option<(usize, bool)>) { let x = (self.fail, self.budget); self.fail = false; self.budget = None; x } fn resume(&mut self, x: (bool, Option<(usize, bool)>)) { self.fail = x.0; self.budget = x.1 }
+    fn set_errs(&mut self, p: Plan) { self.errs = p }
+    fn pause(&mut self) -> Saved { let x = (self.fail, self.budget, std::mem::take(&mut self.errs)); self.fail = false; self.budget = None; x } fn resume(&mut self, x: Saved) { self.fail = x.0; self.budget = x.1; self.errs = x.2 }
 }
 /// is this operation a mutation (whatever its route)?
 fn is_mutation(op: &Op) -> bool {
@@ -546,6 +691,9 @@ fn wants_after(op: &Op, armed: bool) -> bool { matches!(op, Op::InsAllF { .. } |
 fn snap_ds<D: Dataset>(c: &Ctx, d: &D) -> Vec<Q4> where D::Error: std::fmt::Debug { sort4(d.quads().map(|q| ids4(c, &q.expect("reading the store"))).collect()) }
 fn snap_gr<G: Graph>(c: &Ctx, g: &G) -> Vec<Q4> where G::Error: std::fmt::Debug { sort4(g.triples().map(|t| (ids3(c, &t.expect("reading the store")), None)).collect()) }
 
+/// the store's own enumeration, item by item, errors included
+fn own_ds<D: Dataset>(c: &Ctx, d: &D) -> Vec<It<Q4>> { d.quads().map(|q| it1(q, |q| ids4(c, q))).collect() }
+fn own_gr<G: Graph>(c: &Ctx, g: &G) -> Vec<It<Q4>> { g.triples().map(|t| it1(t, |t| (ids3(c, t), None))).collect() }
 /// the source of a bulk mutation: the items as they are / the first `fa` items and then a failure
 macro_rules! plain_src { ($v:expr, $fa:expr) => { $v.into_iter().into_source() }; }
 macro_rules! fail_src { ($v:expr, $fa:expr) => { FSrc::new($v, $fa) }; }
@@ -604,7 +752,9 @@ fn $fname(c: &Ctx, init: &[Q4], ops: &[Op], r: &mut Rng) -> Vec<Out> {
     let mut d: $D = <$D>::default();
     for (t, g) in init { MutableDataset::insert(&mut d, c.term(t[0], r), c.term(t[1], r), c.term(t[2], r), g.map(|g| c.term(g, r))).unwrap(); }
     let mut outs = vec![];
-    for op in ops {
+    for op0 in ops {
+        let (op, seq) = match op0 { Op::Seq(inner) => (&**inner, true), o => (o, false) };
+        SEQ.with(|s| s.set(seq));
         let armed = d.armed();
         let o = match op {
             Op::GObs { path, hop, how, obs, dr } if path.is_empty() => {
@@ -704,9 +854,12 @@ fn $fname(c: &Ctx, init: &[Q4], ops: &[Op], r: &mut Rng) -> Vec<Out> {
             Op::DRetMatching(s, p, o, g) => { let (a, b, cc, gg) = (tm(c, s, r), tm(c, p, r), tm(c, o, r), gm(c, g, r)); if r.chance(1, 2) { unit(d.retain_matching(a, b, cc, gg)) } else { unit(fwd_dretain_matching(&mut d, a, b, cc, gg)) } }
             Op::SetFail(b) => { d.set_fail(*b); Out::Flag(*b) }
             Op::SetBudget(b) => { d.set_budget(*b); Out::Flag(b.is_some()) }
+            Op::SetErrs(p) => { d.set_errs(p.clone()); Out::Flag(!p.is_empty()) }
             old => old_step::<$D>(c, &mut d, old, r),
         };
+        SEQ.with(|s| s.set(false));
         let o = canon(o);
+        let o = if seq { Out::Seq(Box::new(o), own_ds(c, &d)) } else { o };
         let o = if wants_after(op, armed) { let saved = d.pause(); let st = snap_ds(c, &d); d.resume(saved); Out::After(Box::new(o), st) } else { o };
         outs.push(o);
     }
@@ -736,7 +889,9 @@ fn $fname(c: &Ctx, init: &[Q4], ops: &[Op], r: &mut Rng) -> Vec<Out> {
     let mut g: $G = <$G>::default();
     for (t, _) in init { MutableGraph::insert(&mut g, c.term(t[0], r), c.term(t[1], r), c.term(t[2], r)).unwrap(); }
     let mut outs = vec![];
-    for op in ops {
+    for op0 in ops {
+        let (op, seq) = match op0 { Op::Seq(inner) => (&**inner, true), o => (o, false) };
+        SEQ.with(|s| s.set(seq));
         let armed = g.armed();
         let o = match op {
             Op::GObs { path, hop, how, obs, dr } => {
@@ -808,9 +963,12 @@ fn $fname(c: &Ctx, init: &[Q4], ops: &[Op], r: &mut Rng) -> Vec<Out> {
             }
             Op::SetFail(b) => { g.set_fail(*b); Out::Flag(*b) }
             Op::SetBudget(b) => { g.set_budget(*b); Out::Flag(b.is_some()) }
+            Op::SetErrs(p) => { g.set_errs(p.clone()); Out::Flag(!p.is_empty()) }
             other => unreachable!("not generated for graph stores: {other:?}"),
         };
+        SEQ.with(|s| s.set(false));
         let o = canon(o);
+        let o = if seq { Out::Seq(Box::new(o), own_gr(c, &g)) } else { o };
         let o = if wants_after(op, armed) { let saved = g.pause(); let st = snap_gr(c, &g); g.resume(saved); Out::After(Box::new(o), st) } else { o };
         outs.push(o);
     }
@@ -903,7 +1061,7 @@ fn excludes_default(h: &Hop) -> bool { match h { Hop::Union => false, Hop::PUnio
 fn fails(op: &Op, graph_store: bool) -> bool {
     let skip = if graph_store { 0 } else { 1 };
     match op {
-        Op::DInsert(..) | Op::DRemove(..) | Op::VInsert(..) | Op::VRemove(..) | Op::Ins { .. } | Op::Rem { .. } | Op::InsAll { .. } | Op::RemAll { .. } | Op::InsAllF { .. } | Op::RemAllF { .. } | Op::SetFail(..) | Op::SetBudget(..) => false,
+        Op::DInsert(..) | Op::DRemove(..) | Op::VInsert(..) | Op::VRemove(..) | Op::Ins { .. } | Op::Rem { .. } | Op::InsAll { .. } | Op::RemAll { .. } | Op::InsAllF { .. } | Op::RemAllF { .. } | Op::SetFail(..) | Op::SetBudget(..) | Op::SetErrs(..) | Op::Seq(..) => false,
         Op::GObs { path, hop, .. } => !path.iter().chain(std::iter::once(hop)).skip(skip).any(excludes_default),
         Op::DObs { path, obs, .. } => {
             if path.is_empty() && !graph_store { return true }
@@ -911,6 +1069,64 @@ fn fails(op: &Op, graph_store: bool) -> bool {
             !answered_by_the_adapter && !path.iter().skip(skip).any(excludes_default)
         }
         _ => true,
+    }
+}
+// ---------- oracle of the complete sequences (Op::Seq): the store's own enumeration, filtered ----------
+/// the store's own enumeration as the plan prescribes it, given its statements in the order the store enumerates them
+fn with_plan(oks: &[Q4], plan: &Plan) -> Vec<It<Q4>> {
+    let n = oks.len(); let mut v = vec![];
+    for i in 0..=n { for (p, code) in plan { if *p == i || (i == n && *p > n) { v.push(Err(*code)) } } if i < n { v.push(Ok(oks[i])) } }
+    v
+}
+fn oks_of<X: Copy>(v: &[It<X>]) -> Vec<X> { v.iter().filter_map(|i| i.ok()).collect() }
+fn errs_of<X: Copy>(v: &[It<X>]) -> Vec<u64> { v.iter().filter_map(|i| i.err()).collect() }
+/// a filter lets every error item through: nobody knows what the unreadable statement was
+fn filter_ok<X: Copy>(v: &[It<X>], f: impl Fn(&X) -> bool) -> Vec<It<X>> { v.iter().filter(|i| match i { Ok(x) => f(x), Err(_) => true }).cloned().collect() }
+/// what a graph-valued view shows of the enumeration `cur` of a dataset: the statements of its graphs and every error item;
+/// `adapter` = that dataset is a graph seen as a dataset, which answers by itself (nothing, hence no error either) when only
+/// named graphs are asked for
+fn hop_seq(cur: &[It<Q4>], h: &Hop, adapter: bool) -> Vec<It<T3>> {
+    if adapter && excludes_default(h) { return vec![] }
+    filter_ok(cur, |q| match h { Hop::Union => true, Hop::PUnion(gd) => gd_ok(gd, q.1), Hop::Graph(g) => q.1 == *g }).into_iter().map(|i| i.map(|q| q.0)).collect()
+}
+fn path_seq(own: &[It<Q4>], p: &[Hop], graph_store: bool) -> (Vec<It<Q4>>, bool) {
+    let (mut cur, mut adapter) = (own.to_vec(), graph_store);
+    for h in p { cur = hop_seq(&cur, h, adapter).into_iter().map(|i| i.map(|t| (t, None))).collect(); adapter = true }
+    (cur, adapter)
+}
+/// contains(): the statement is there if it comes first, absent if nothing comes, unknown if an error comes first -- unless the
+/// implementation read on and found it (`seen`), which nothing forbids
+fn first_rule<X: Copy>(s: &[It<X>], seen: Option<&Out>) -> Out {
+    match s.first() {
+        None => Out::Flag(false), Some(Ok(_)) => Out::Flag(true),
+        Some(Err(code)) => if s.iter().any(|i| i.is_ok()) && matches!(seen, Some(Out::Flag(true))) { Out::Flag(true) } else { Out::Err(format!("MyErr({code})")) },
+    }
+}
+fn seq_oracle(own: &[It<Q4>], inner: &Op, graph_store: bool, seen: Option<&Out>) -> Out {
+    match inner {
+        Op::GObs { path, hop, obs, .. } => {
+            let (cur, adapter) = path_seq(own, path, graph_store);
+            let ts = hop_seq(&cur, hop, adapter);
+            match obs {
+                GObs::All => Out::SeqT(ts),
+                GObs::Matching(s, p, o) => Out::SeqT(filter_ok(&ts, |t| t_ok(s, p, o, t))),
+                GObs::Contains(t) => first_rule(&filter_ok(&ts, |x| x == t), seen),
+                GObs::Terms(k) => Out::SeqTerms(set_of(oks_of(&ts).iter().map(|t| t[(*k).min(2) as usize]).collect()), errs_of(&ts)),
+                GObs::Atoms(k) => Out::SeqTerms(atoms_of_terms(oks_of(&ts).iter().flat_map(|t| t.iter().cloned()), *k), errs_of(&ts)),
+            }
+        }
+        Op::DObs { path, obs, .. } => {
+            let (cur, adapter) = path_seq(own, path, graph_store);
+            match obs {
+                DObs::All => Out::SeqQ(cur),
+                DObs::Matching(s, p, o, g) => if adapter && !gd_ok(g, None) { Out::SeqQ(vec![]) } else { Out::SeqQ(filter_ok(&cur, |q| gd_ok(g, q.1) && t_ok(s, p, o, &q.0))) },
+                DObs::Contains(q) => if adapter && q.1.is_some() { Out::Flag(false) } else { first_rule(&filter_ok(&cur, |x| x == q), seen) },
+                DObs::Terms(k) if *k < 3 => Out::SeqTerms(set_of(oks_of(&cur).iter().map(|q| q.0[*k as usize]).collect()), errs_of(&cur)),
+                DObs::Terms(_) => if adapter { Out::SeqTerms(vec![], vec![]) } else { Out::SeqTerms(set_of(oks_of(&cur).iter().filter_map(|q| q.1).collect()), errs_of(&cur)) },
+                DObs::Atoms(k) => Out::SeqTerms(atoms_of_terms(oks_of(&cur).iter().flat_map(|q| q.0.iter().cloned().chain(q.1)), *k), errs_of(&cur)),
+            }
+        }
+        other => unreachable!("only observations are wrapped in Seq: {other:?}"),
     }
 }
 /// the oracle's store: its content and the pending failure of its insert / remove (see Op::SetBudget)
@@ -965,6 +1181,7 @@ fn oracle_ds(init: &[Q4], ops: &[Op], bag: Kind, graph_store: bool, observed: &[
     for q in init { o_insert(&mut st.set, bag, *q); }
     let mut outs = vec![]; let mut partial = vec![];
     let mut failing = false;
+    let mut plan: Plan = vec![];
     for (k, op) in ops.iter().enumerate() {
         let armed = st.budget.is_some();
         let mut part = None;
@@ -972,6 +1189,17 @@ fn oracle_ds(init: &[Q4], ops: &[Op], bag: Kind, graph_store: bool, observed: &[
         let o = if failing && fails(op, graph_store) { Out::Err("MyErr(7)".into()) } else { match op {
             Op::SetFail(b) => { failing = *b; Out::Flag(*b) }
             Op::SetBudget(b) => { st.budget = *b; Out::Flag(b.is_some()) }
+            Op::SetErrs(p) => { plan = p.clone(); Out::Flag(!p.is_empty()) }
+            Op::Seq(inner) => {
+                let (seen_view, seen_own) = match observed.get(k) { Some(Out::Seq(v, own)) => (Some(&**v), Some(own)), _ => (None, None) };
+                // the store's own enumeration: its statements (all of them, once each) in ITS order, which is not part of the
+                // property, and the error items where the plan puts them
+                let own = match seen_own {
+                    Some(own) if sort4(oks_of(own)) == sort4(set.clone()) && *own == with_plan(&oks_of(own), &plan) => own.clone(),
+                    _ => with_plan(&sort4(set.clone()), &plan),
+                };
+                Out::Seq(Box::new(seq_oracle(&own, inner, graph_store, seen_view)), own)
+            }
             Op::DInsert(q) => st.insert(*q),
             Op::DRemove(q) => st.remove(*q),
             Op::VInsert(g, t) => st.insert((*t, *g)),
@@ -1222,6 +1450,48 @@ fn gen_after_budget(r: &mut Rng, known: &mut Vec<Q4>, graph_store: bool) -> Op {
         _ => Op::DRetMatching(gen_md(r), MD::Any, gen_md(r), if r.chance(1, 2) { GD::Any } else { gen_gd(r) }),
     }
 }
+/// a plan of read errors for a store of about `n` statements: one to three errors, at the very start, among the first
+/// statements, anywhere, at the very end; several of them may share a place
+fn gen_plan(r: &mut Rng, n: usize) -> Plan {
+    let k = match r.below(6) { 0..=2 => 1, 3 | 4 => 2, _ => 3 };
+    (0..k).map(|i| (match r.below(5) { 0 => 0, 1 | 2 => r.below(n / 2 + 1), 3 => r.below(n + 1), _ => 1000 }, 20 + i as u64)).collect()
+}
+/// an observation that keeps the complete sequence of items, through any view and by any method
+fn gen_seq_obs(r: &mut Rng, known: &[Q4], graph_store: bool) -> Op {
+    let (how, dr) = (r.below(256) as u8, r.below(5) as u8);
+    let path = gen_path(r, graph_store);
+    if r.chance(2, 3) {
+        let hop = if path.is_empty() && !graph_store { gen_hop(r) } else { gen_hop_nested(r) };
+        let obs = if r.chance(1, 3) { GObs::All } else { gen_gobs(r, known) };
+        Op::Seq(Box::new(Op::GObs { path, hop, how, obs, dr }))
+    } else {
+        let nested = graph_store || !path.is_empty();
+        let obs = if r.chance(1, 3) { DObs::All } else { gen_dobs(r, known, nested) };
+        Op::Seq(Box::new(Op::DObs { path, how, obs, dr }))
+    }
+}
+/// one operation while a plan of read errors is in force: mostly observations of complete sequences, single insertions and
+/// removals through views in between (they do not enumerate the store), a new plan, the end of the phase
+fn gen_seq_phase(r: &mut Rng, known: &mut Vec<Q4>, graph_store: bool, plan_on: &mut bool) -> Op {
+    let how = r.below(256) as u8;
+    match r.below(20) {
+        0 | 1 => { *plan_on = false; Op::SetErrs(vec![]) }
+        2 | 3 => Op::SetErrs(gen_plan(r, known.len())),
+        4..=6 => {
+            let depth = match r.below(10) { 0..=5 => 1, 6..=8 => 2, _ => 3 }; let gs = gen_gs(r, graph_store, depth);
+            let t = if !known.is_empty() && r.chance(1, 3) { r.pick(known).0 } else { gen_t3(r) };
+            if let Some(g) = lands(&gs) { known.push((t, g)) }
+            Op::Ins { gs, t, how }
+        }
+        7 => {
+            let (t, g) = if !known.is_empty() && r.chance(2, 3) { *r.pick(known) } else { (gen_t3(r), gen_g(r)) };
+            let depth = match r.below(10) { 0..=5 => 1, 6..=8 => 2, _ => 3 }; let mut gs = gen_gs(r, graph_store, depth);
+            if !graph_store && r.chance(3, 4) { gs[0] = g }
+            Op::Rem { gs, t, how }
+        }
+        _ => gen_seq_obs(r, known, graph_store),
+    }
+}
 /// did this operation go through a view (and not straight to the store)?
 fn through_view(op: &Op, graph_store: bool) -> bool {
     match op {
@@ -1292,7 +1562,7 @@ fn c_xout(o: &Out) -> String {
     match o {
         Out::Has(b) => format!("XO (OFlag {})", coq_bool(*b)),
         Out::OnlyDefault => "XOnlyDefault".into(),
-        Out::Err(_) | Out::SrcErr | Out::SinkErr | Out::After(..) => "XOnlyDefault; XOnlyDefault".into(), // an error never matches the model: length differs
+        Out::Err(_) | Out::SrcErr | Out::SinkErr | Out::After(..) | Out::SeqT(..) | Out::SeqQ(..) | Out::SeqTerms(..) | Out::Seq(..) => "XOnlyDefault; XOnlyDefault".into(), // an error never matches the model: length differs
         o => format!("XO ({})", c_out(o)),
     }
 }
@@ -1303,9 +1573,31 @@ fn c_out(o: &Out) -> String {
         Out::Quads(l) => format!("OQuads {}", coq_list(l.iter().map(c_q4))),
         Out::Count(n) => format!("OCount {n}"), Out::Terms(l) => format!("OTerms {}", coq_list(l.iter().map(|x| x.to_string()))),
         Out::Has(_) | Out::OnlyDefault => unreachable!(),
-        Out::Err(_) | Out::SrcErr | Out::SinkErr | Out::After(..) => "OFlag true; OFlag false".into(), // an error never matches the model: length differs
+        Out::Err(_) | Out::SrcErr | Out::SinkErr | Out::After(..) | Out::SeqT(..) | Out::SeqQ(..) | Out::SeqTerms(..) | Out::Seq(..) => "OFlag true; OFlag false".into(), // an error never matches the model: length differs
     }
 }
+// ---------- the complete sequences (ModelSeq.v) ----------
+fn c_it<X>(i: &It<X>, f: impl Fn(&X) -> String) -> String { match i { Ok(x) => format!("IOk {}", f(x)), Err(code) => format!("IErr {code}") } }
+fn c_plan(p: &Plan) -> String { coq_list(p.iter().map(|(pos, code)| format!("({pos}, {code})"))) }
+/// the answer of an Op::Seq
+fn c_qout(o: &Out) -> String {
+    match o {
+        Out::SeqT(l) => format!("QT {}", coq_list(l.iter().map(|i| c_it(i, c_t3)))),
+        Out::SeqQ(l) => format!("QQ {}", coq_list(l.iter().map(|i| c_it(i, c_q4)))),
+        Out::SeqTerms(set, errs) => format!("QTerms {}", coq_list(set.iter().map(|x| format!("IOk {x}")).chain(errs.iter().map(|e| format!("IErr {e}"))))),
+        Out::Flag(b) => format!("QFlag {}", coq_bool(*b)),
+        Out::Err(e) if e.starts_with("MyErr(") => format!("QErr {}", code(e)),
+        _ => "QNone".into(), // never equal to anything
+    }
+}
+fn c_seq_xop(o: &Op) -> String {
+    match o {
+        Op::GObs { path, hop, obs, .. } => format!("(XGObs {} {} {})", coq_list(path.iter().map(c_hop)), c_hop(hop), c_gobs(obs)),
+        Op::DObs { path, obs, .. } => format!("(XDObs {} {})", coq_list(path.iter().map(c_hop)), c_dobs(obs)),
+        other => unreachable!("only observations are wrapped in Seq: {other:?}"),
+    }
+}
+fn c_sout(o: &Out) -> String { match o { Out::Err(_) => "SX (EX XOnlyDefault); SX (EX XOnlyDefault)".into(), o => format!("SX ({})", c_eout(o)) } }
 /// the matching removals as the model's xop (both alphabets): what EPartial is given
 fn c_matching_xop(o: &Op) -> Option<String> {
     match o {
@@ -1336,13 +1628,34 @@ fn c_eout(o: &Out) -> String {
 }
 /// the Coq case of a history: `xcase_ok` (Model.v) when it has no error path, `ecase_ok` (ModelErr.v) otherwise; an answer that
 /// comes with the content of the store is given to the model as the operation followed by quads() on the store
-fn c_case(bag: Kind, init: &[Q4], ops: &[Op], outs: &[Out], exp: &[Out], partial: &[Option<Vec<Q4>>]) -> String {
+fn c_case(bag: Kind, graph_store: bool, init: &[Q4], ops: &[Op], outs: &[Out], exp: &[Out], partial: &[Option<Vec<Q4>>]) -> String {
     // the model has no failing ENUMERATIONS: the operations that are EXPECTED to report that injected error (they leave the
     // state alone) and the switches are left out of the Coq case; an unexpected error stays in and disagrees
     let injected = |o: &Out| match o { Out::After(x, _) => **x == Out::Err("MyErr(7)".into()), x => *x == Out::Err("MyErr(7)".into()) };
     let keep: Vec<usize> = (0..ops.len()).filter(|k| !matches!(ops[*k], Op::SetFail(..)) && !injected(&exp[*k])).collect();
     let sk = match bag { Kind::Set => "SSet", Kind::BagAll => "SBagAll", Kind::BagOne => "SBagOne" };
     let errs = ops.iter().any(|o| matches!(o, Op::InsAllF { .. } | Op::RemAllF { .. } | Op::SetBudget(..)));
+    if ops.iter().any(|o| matches!(o, Op::SetErrs(..) | Op::Seq(..))) {
+        // scase_ok (ModelSeq.v): the histories of ModelErr.v, the plans of read errors, and the observations of complete sequences,
+        // each given with the store's own enumeration at that time
+        let (mut cops, mut couts) = (vec![], vec![]);
+        for k in keep {
+            match (&ops[k], &outs[k]) {
+                (Op::SetErrs(p), x) => { cops.push(format!("SSetErrs {}", c_plan(p))); couts.push(c_sout(x)); }
+                (Op::Seq(inner), Out::Seq(view, own)) => { cops.push(format!("SSeq {} {}", coq_list(own.iter().map(|i| c_it(i, c_q4))), c_seq_xop(inner))); couts.push(format!("SQ ({})", c_qout(view))); }
+                (Op::Seq(inner), _) => { cops.push(format!("SSeq [] {}", c_seq_xop(inner))); couts.push("SQ QNone".into()); }
+                (o, x) => {
+                    let half = if matches!(&exp[k], Out::After(x, _) if **x == Out::SinkErr) { &partial[k] } else { &None };
+                    cops.push(format!("SE ({})", c_eop(o, half)));
+                    match x {
+                        Out::After(x, st) => { couts.push(c_sout(x)); cops.push("SE (EH (HNew (XDObs [] DOAll)))".into()); couts.push(format!("SX (EX (XO (OQuads {})))", coq_list(st.iter().map(c_q4)))); }
+                        x => couts.push(c_sout(x)),
+                    }
+                }
+            }
+        }
+        return format!("scase_ok {sk} {} the_pool {} {} {}", coq_bool(graph_store), coq_list(init.iter().map(c_q4)), coq_list(cops), coq_list(couts));
+    }
     if !errs {
         return format!("xcase_ok {sk} the_pool {} {} {}", coq_list(init.iter().map(c_q4)), coq_list(keep.iter().map(|k| c_hop_op(&ops[*k]))), coq_list(keep.iter().map(|k| c_xout(&outs[*k]))));
     }
@@ -1419,6 +1732,32 @@ fn bump_errors(sum: &mut Summary, ops: &[Op], exp: &[Out]) {
         }
     }
 }
+/// histogram of the complete sequences that were really observed: where the errors sat, and what followed them
+fn bump_seq(sum: &mut Summary, ops: &[Op], exp: &[Out]) {
+    for (o, x) in ops.iter().zip(exp.iter()) {
+        if let (Op::Seq(inner), Out::Seq(view, own)) = (o, x) {
+            let n_err = own.iter().filter(|i| i.is_err()).count();
+            sum.bump(&format!("complete sequence: the store's enumeration has {} error item(s)", n_err.min(3)));
+            if n_err > 0 {
+                let first = own.iter().position(|i| i.is_err()).unwrap(); let last = own.iter().rposition(|i| i.is_err()).unwrap();
+                if first == 0 { sum.bump("complete sequence: the store's enumeration STARTS with an error") }
+                if own[first..].iter().any(|i| i.is_ok()) { sum.bump("complete sequence: statements FOLLOW an error in the store's enumeration") }
+                if last + 1 == own.len() { sum.bump("complete sequence: the store's enumeration ENDS with an error") }
+            }
+            let follow = |v: &[bool]| v.iter().position(|e| *e).map_or(false, |k| v[k..].iter().any(|e| !*e));
+            let shape: Option<Vec<bool>> = match &**view { Out::SeqT(l) => Some(l.iter().map(|i| i.is_err()).collect()), Out::SeqQ(l) => Some(l.iter().map(|i| i.is_err()).collect()), _ => None };
+            let what = match &**inner { Op::GObs { hop, path, obs, .. } => format!("{}{} {}", if path.is_empty() { "" } else { "view of view, " }, match hop { Hop::Union => "union", Hop::PUnion(_) => "partial union", Hop::Graph(_) => "one graph" }, format!("{obs:?}").split('(').next().unwrap().to_lowercase()),
+                                         Op::DObs { path, obs, .. } => format!("{} {}", if path.is_empty() { "dataset (the store / the graph store as a dataset)" } else { "graph view as a dataset" }, format!("{obs:?}").split('(').next().unwrap().to_lowercase()), _ => String::new() };
+            sum.bump(&format!("complete sequence through:{what}"));
+            match (&**view, shape) {
+                (_, Some(sh)) if follow(&sh) => sum.bump(&format!("complete sequence, items FOLLOW an error in the view's answer:{what}")),
+                (Out::SeqTerms(_, e), _) if !e.is_empty() => sum.bump(&format!("complete sequence, errors relayed in an enumeration of terms:{what}")),
+                (Out::Err(_), _) => sum.bump(&format!("complete sequence, contains() answers with the error:{what}")),
+                _ => {}
+            }
+        }
+    }
+}
 fn op_name(o: &Op) -> String { format!("{o:?}").split(|ch| ch == '(' || ch == ' ').next().unwrap().to_string() }
 
 fn main() {
@@ -1433,6 +1772,9 @@ fn main() {
 every other case of each kind is about a GENERALIZED dataset (graph names that are literals, variables, quoted triples, with terms occurring nowhere else, in every matcher / view / mutation); \
 error paths: insert_all / remove_all through every mutable view from a source that fails after k items (re-yielding quads already present in that graph or another one), and on the flaky stores \
 an insert / remove that fails at the (k+1)-th call (once or for ever) under every mutation incl. remove_matching / retain_matching through views: the answer is compared together with the content of the store right after the call; \
+read errors in the MIDDLE of the store's enumerations (flaky stores): plans of 1..3 error items at the start / among the first statements / anywhere / at the end, \
+and observations that keep the complete sequence of Ok / Err items of every enumeration and pattern method of every view (views of views included, every route and way of consuming the iterator), \
+compared item by item with the store's own enumeration filtered by the oracle (enumerations of terms: set of terms and sequence of error codes), with single mutations through views in between; \
 non-trivial = at least one mutation through a view that changes the store AND at least one non-empty query result; distinct = distinct (store, init, ops) after printing".into();
     let mut cases: Vec<(usize, String)> = vec![];
     let mut seen = HashSet::new();
@@ -1453,8 +1795,12 @@ non-trivial = at least one mutation through a view that changes the store AND at
             for k in 0..init.len() { if r.chance(1, 3) { let t = init[k].0; init.push((t, gen_g(&mut r))); } }
             // state-aware generation: `known` approximates the quads inserted so far (removals ignored)
             let mut known: Vec<Q4> = init.clone();
-            let mut fail_now = false; let mut just_armed = false;
+            let mut fail_now = false; let mut just_armed = false; let mut plan_on = false;
             let ops: Vec<Op> = (0..nops).map(|_| {
+                // read errors in the middle of the store's enumerations (Op::SetErrs / Op::Seq)
+                if store == 10 && plan_on { return gen_seq_phase(&mut r, &mut known, false, &mut plan_on) }
+                if store == 10 && !fail_now && r.chance(1, 6) { plan_on = true; return Op::SetErrs(gen_plan(&mut r, known.len())) }
+                if store == 10 && !fail_now && r.chance(1, 12) { return gen_seq_obs(&mut r, &known, false) }
                 if store == 10 && r.chance(1, if fail_now { 4 } else { 8 }) { fail_now = !fail_now; return Op::SetFail(fail_now) }
                 if store == 10 && just_armed { just_armed = false; if r.chance(3, 4) { return gen_after_budget(&mut r, &mut known, false) } }
                 if store == 10 && r.chance(1, 5) { let o = gen_budget(&mut r); just_armed = matches!(o, Op::SetBudget(Some(_))); return o }
@@ -1502,17 +1848,20 @@ non-trivial = at least one mutation through a view that changes the store AND at
             if seen.insert(text.clone()) && changed && nonempty { sum.distinct_nontrivial += 1; }
             sum.bump(&format!("store:{}", DS_STORES[store]));
             for o in &ops { sum.bump(&format!("op:{}", op_name(o))); bump_routes(&mut sum, o); }
-            bump_errors(&mut sum, &ops, &exp);
+            bump_errors(&mut sum, &ops, &exp); bump_seq(&mut sum, &ops, &exp);
             if sum.samples.len() < 3 { sum.samples.push(format!("case {idx}: {text} => {outs:?}")); }
-            cases.push((idx, c_case(bag, &init, &ops, &outs, &exp, &partial)));
+            cases.push((idx, c_case(bag, false, &init, &ops, &outs, &exp, &partial)));
         } else if idx % 4 == 3 {
             // a graph store behind GraphAsDataset, widened alphabet: the state is the dataset whose default graph is the store
             let store = r.below(8);
             let bag = if store == 6 { Kind::BagAll } else { Kind::Set };
             let init: Vec<Q4> = (0..ninit).map(|_| (gen_t3(&mut r), None)).collect();
             let mut known: Vec<Q4> = init.clone();
-            let mut fail_now = false; let mut just_armed = false;
+            let mut fail_now = false; let mut just_armed = false; let mut plan_on = false;
             let ops: Vec<Op> = (0..nops).map(|_| {
+                if store == 7 && plan_on { return gen_seq_phase(&mut r, &mut known, true, &mut plan_on) }
+                if store == 7 && !fail_now && r.chance(1, 6) { plan_on = true; return Op::SetErrs(gen_plan(&mut r, known.len())) }
+                if store == 7 && !fail_now && r.chance(1, 12) { return gen_seq_obs(&mut r, &known, true) }
                 if store == 7 && r.chance(1, if fail_now { 4 } else { 8 }) { fail_now = !fail_now; return Op::SetFail(fail_now) }
                 if store == 7 && just_armed { just_armed = false; if r.chance(3, 4) { return gen_after_budget(&mut r, &mut known, true) } }
                 if store == 7 && r.chance(1, 5) { let o = gen_budget(&mut r); just_armed = matches!(o, Op::SetBudget(Some(_))); return o }
@@ -1540,9 +1889,9 @@ non-trivial = at least one mutation through a view that changes the store AND at
             if seen.insert(text.clone()) && changed && nonempty { sum.distinct_nontrivial += 1; }
             sum.bump(&format!("store:as_dataset of {}", GX_STORES[store]));
             for o in &ops { sum.bump(&format!("xop:{}", op_name(o))); bump_routes(&mut sum, o); }
-            bump_errors(&mut sum, &ops, &exp);
+            bump_errors(&mut sum, &ops, &exp); bump_seq(&mut sum, &ops, &exp);
             if sum.samples.len() < 4 { sum.samples.push(format!("case {idx}: {text} => {outs:?}")); }
-            cases.push((idx, c_case(bag, &init, &ops, &outs, &exp, &partial)));
+            cases.push((idx, c_case(bag, true, &init, &ops, &outs, &exp, &partial)));
         } else {
             let store = r.below(6);
             let init: Vec<T3> = (0..ninit).map(|_| gen_t3(&mut r)).collect();
@@ -1581,7 +1930,7 @@ non-trivial = at least one mutation through a view that changes the store AND at
     }
     for (k, v) in ctx.notes.borrow().iter() { sum.bump_by(k, *v); }
     if a.only.is_none() {
-        let pool_def = format!("From Sophia.C11 Require Import Model ModelErr.\nDefinition the_pool : pool := {}.", coq_list((1..=NT).map(|i| { let (k, at, tc) = pool_info(i); format!("({i}, ({k}, {}, {}))", coq_list(at.iter().map(|x| x.to_string())), coq_list(tc.iter().map(|x| x.to_string()))) })));
+        let pool_def = format!("From Sophia.C11 Require Import Model ModelErr ModelSeq.\nDefinition the_pool : pool := {}.", coq_list((1..=NT).map(|i| { let (k, at, tc) = pool_info(i); format!("({i}, ({k}, {}, {}))", coq_list(at.iter().map(|x| x.to_string())), coq_list(tc.iter().map(|x| x.to_string()))) })));
         sum.shards = write_shards(&a.out, &pool_def, &cases, a.shards);
         std::fs::write(format!("{}/summary.json", a.out), sum.to_json()).unwrap();
     }
